@@ -83,6 +83,8 @@ def gen_coef(n, seed, i, kind):
         return pow(h, 9) % n if h % 8 == 0 else 0
     if kind == "b":
         return n - 1 if h % 2 == 0 else 0
+    if kind == "t":
+        return pow(h, 9) % n if h % 2048 == 0 else 0
     raise ValueError(kind)
 
 
@@ -350,13 +352,29 @@ def convolve_cases(rng, tier, extended):
         n = modulus(rng, bits)
         arm = arm_of(bits, size)
         A = 1 << arm[2]
-        for kinds in ([("r", "r"), ("m", "m")] if tier != "quick" or size <= 8192 else [("m", "r")]):
-            lp = rng.choice([size, size - 1, size // 2 + 1])
-            lq = rng.choice([size, size // 2 + 3])
-            off = rng.choice([0, 0, A - 1, 1])
+        # three shapes: (a) dense x dense without wrap-around (|p| + |q| <= size + 1): EVERY coefficient is judged through the
+        # checksum Σ c_i x^i = p(x) q(x) mod n at a random point; (b) dense x sparse with wrap-around: the oracle computes the
+        # full cyclic product exactly and judges every coefficient through the checksum; (c) dense x dense with wrap-around:
+        # boundary + sampled indices only (no quadratic oracle at this size)
+        shapes = [("nowrap", "r", "r"), ("sparse", "m", "t"), ("wrap", "m", "r")]
+        if tier != "quick" or size <= 8192:
+            shapes += [("nowrap", "m", "m"), ("sparse", "r", "t")]
+        for shape, k1, k2 in shapes:
+            if shape == "sparse" and size > 262144:
+                continue
+            if shape == "nowrap":
+                lp = rng.choice([size // 2, size // 2 + 1, size - 5])
+                lq = size + 1 - lp
+            elif shape == "sparse":
+                lp, lq = rng.choice([size, size - 1]), rng.choice([size, size // 2 + 3])
+            else:
+                lp, lq = rng.choice([size, size - 1, size // 2 + 1]), rng.choice([size, size // 2 + 3])
+            off = 0 if shape != "wrap" else rng.choice([0, 0, A - 1, 1])
             reslen = size - off
             idx = sample_idx(rng, reslen, A)
-            ops = f"g:{lp}:{rng.getrandbits(32)}:{kinds[0]} g:{lq}:{rng.getrandbits(32)}:{kinds[1]} {fmt(idx)}"
+            x = rng.randrange(2, n)
+            tail = fmt(idx) + (f" {x}" if shape != "wrap" else "")
+            ops = f"g:{lp}:{rng.getrandbits(32)}:{k1} g:{lq}:{rng.getrandbits(32)}:{k2} {tail}"
             to = 200.0 if size >= 131072 else 60.0
             out.append(Case(f"pf_convolve {n} {size} {off} {reslen} {ops}", k=False, o=True, timeout=to,
                             profiles=None if size <= 32768 else ["release"]))
@@ -388,24 +406,18 @@ def convolve_cases(rng, tier, extended):
 # ---------------------------------------------------------------- Poly entry points
 
 def kara_ok(lp, lq, zlen, tmplen):
-    """Does Poly::karatsuba(z, p, q, tmp) stay inside its slices and compute the product (|z| = zlen)?
-    Mirrors the slice arithmetic of the routine (no coefficient arithmetic)."""
+    """Does Poly::karatsuba(z, p, q, tmp) stay inside its slices (|z| = zlen, |tmp| = tmplen)?
+    Mirrors the slice arithmetic of the routine after commit 5b13664 (unbalanced operands fall back to the
+    schoolbook product); used to pick buffer sizes for the raw op and to classify, not to avoid lengths."""
     if lp == 0 or lq == 0:
         return False
-    if lp <= 20 and lq <= 20:
-        return lp + lq - 1 <= zlen
-    if zlen < lp + lq:
-        return False
     half = (max(lp, lq) + 1) // 2
-    if tmplen < 4 * half or lp < half or lq < half:
-        return False
-    lph, lqh = lp - half, lq - half
-    if lph == 0 or lqh == 0:
-        return False
-    if zlen < 3 * half:
+    if (lp <= 20 and lq <= 20) or lp <= half or lq <= half:
+        return lp + lq - 1 <= zlen
+    if zlen < lp + lq or tmplen < 4 * half or zlen < 3 * half:
         return False
     return (kara_ok(half, half, 2 * half, zlen) and kara_ok(half, half, 2 * half, tmplen - 2 * half)
-            and kara_ok(lph, lqh, zlen - 2 * half, tmplen - 2 * half) and lph + lqh - 1 <= 2 * half)
+            and kara_ok(lp - half, lq - half, zlen - 2 * half, tmplen - 2 * half))
 
 
 POLY_LENS = [1, 2, 3, 4, 5, 7, 8, 9, 15, 16, 17, 19, 20, 21, 27, 28, 29, 31, 32, 33, 39, 40, 41, 42, 43, 55, 56, 57, 63, 64, 65,
@@ -432,21 +444,24 @@ def poly_cases(rng, tier, extended):
         for _ in range(reps):
             n = poly_modulus(rng)
             kind = rng.choice(["rand", "max", "mix", "near"])
-            # Karatsuba: equal lengths and the unbalanced shapes the routine supports
+            # Karatsuba: equal lengths and EVERY unbalanced shape 1 <= |q| <= |p| (the buffers of mul_karatsuba are
+            # sized by |p|); the shapes that panicked before commit 5b13664 (e.g. 64 x 40) included
             p = coeffs(rng, n, L, kind)
             lq = L
             if rng.randrange(3) == 0:
-                cand = [x for x in range(1, L + 1) if kara_ok(L, x, 2 * L, 6 * L)]
-                lq = rng.choice(cand)
+                lq = rng.choice([1, 2, max(1, L // 2 - 1), max(1, L // 2), L // 2 + 1, max(1, L - 1), rng.randrange(1, L + 1)])
             q = coeffs(rng, n, lq, kind)
             out.append(Case(f"pf_mul_karatsuba {n} {fmt(p)} {fmt(q)}"))
             out.append(Case(f"pf_mul_basic {n} {fmt(p[:20])} {fmt(coeffs(rng, n, rng.randrange(1, min(len(p[:20]), 20) + 1)))}"))
-            if L > 20 and rng.randrange(2) == 0:
-                # outside the domain (unbalanced operands): the mechanism model predicts the checked profile exactly,
-                # garbage coefficients and panic sites included; no oracle
-                bad = [x for x in range(1, L + 1) if not kara_ok(L, x, 2 * L, 6 * L)]
-                if bad:
-                    out.append(Case(f"pf_mul_karatsuba {n} {fmt(p)} {fmt(coeffs(rng, n, rng.choice(bad)))}", o=False, profiles=["chk"]))
+            # the recursion with |p| < |q| and other unequal pairs, through the hook (buffers large enough)
+            la, lb = rng.choice([(L, L + 1), (L, L + 2), (max(1, L - 2), L), (L, 2 * L - 1), (max(1, L // 2 + 1), L),
+                                 (rng.randrange(1, L + 1), L), (L, rng.randrange(1, L + 1))])
+            pa, qb = coeffs(rng, n, la, kind), coeffs(rng, n, lb, kind)
+            out.append(Case(f"pf_karatsuba_raw {n} {la + lb} {3 * max(la, lb) + rng.choice([0, 1, 7])} {fmt(pa)} {fmt(qb)}"))
+            if L > 20 and rng.randrange(4) == 0:
+                # |q| > |p|: z (2|p| entries) is too short for the wrapper: the model predicts the checked profile
+                out.append(Case(f"pf_mul_karatsuba {n} {fmt(p)} {fmt(coeffs(rng, n, L + rng.randrange(1, L + 1)))}",
+                                o=False, profiles=["chk"]))
             # FFT product
             lq = rng.choice([L, L, max(1, L - 1), max(1, L // 2), 1])
             if L == 1:
@@ -484,6 +499,7 @@ def poly_cases(rng, tier, extended):
     shapes = [(1, 1), (1, 3), (3, 1), (2, 2), (3, 4), (4, 4), (5, 4), (7, 8), (8, 8), (9, 8), (17, 8), (24, 8), (25, 8), (5, 13),
               (13, 13), (16, 13), (40, 13), (27, 28), (28, 28), (29, 28), (31, 32), (32, 32), (33, 32), (64, 32), (65, 32),
               (100, 33), (20, 64), (63, 64), (64, 64), (128, 64), (129, 64), (200, 100), (100, 200), (300, 128)]
+    shapes += [(la, lb) for la in (32, 40, 64, 100) for lb in (17, 20, 21, 27)]
     if tier != "quick":
         shapes += [(255, 256), (256, 256), (257, 256), (1024, 256), (1500, 500), (512, 1024), (2048, 1024), (4097, 1024)]
     for la, lb in shapes:
@@ -494,14 +510,20 @@ def poly_cases(rng, tier, extended):
             if rng.randrange(4) == 0 and la and lb:
                 b[rng.randrange(lb)] = a[rng.randrange(la)]          # a common root: value 0
             out.append(Case(f"pf_roots_eval {n} {fmt(a)} {fmt(b)}"))
-    # Poly::multi_eval(p, pts), deg p <= number of points (the documented use: more points than the degree)
-    for lp, lpts in [(1, 1), (2, 1), (2, 2), (3, 3), (5, 3), (4, 4), (5, 4), (5, 5), (5, 8), (5, 9), (8, 8), (9, 8), (9, 9), (9, 17), (9, 40),
-                     (16, 16), (17, 16), (17, 17), (17, 33), (17, 70), (30, 32), (33, 32), (33, 100), (64, 64), (65, 64), (65, 65), (65, 300)]:
-        for _ in range(scale):
-            n = poly_modulus(rng)
-            p = coeffs(rng, n, lp)
-            pts = coeffs(rng, n, lpts, rng.choice(["rand", "mix"]))
-            out.append(Case(f"pf_multi_eval {n} {rng.choice([max(lp, lpts), 2 * max(lp, lpts)])} {fmt(p)} {fmt(pts)}"))
+    # Poly::multi_eval(p, pts): every shape; before commit 6f9ca4a a short last chunk was evaluated on a tree smaller
+    # than deg p (wrong values / index panic when there are more points than coefficients)
+    me_shapes = [(1, 1), (2, 1), (2, 2), (3, 3), (5, 3), (4, 4), (4, 5), (3, 13), (5, 4), (5, 5), (5, 8), (5, 9), (8, 8), (9, 8),
+                 (9, 9), (9, 17), (9, 40), (16, 16), (17, 16), (17, 17), (17, 33), (17, 70), (30, 32), (33, 32), (33, 100),
+                 (64, 64), (65, 64), (65, 65), (65, 300)]
+    for _ in range(60 * scale):
+        lp = rng.choice([1, 2, 3, 4, 5, 7, 8, 9, 15, 16, 17, 27, 28, 29, 31, 32, 33, 40, 63, 64, 65, rng.randrange(1, 90)])
+        lpts = max(1, rng.choice([lp - 1, lp, lp + 1, 2 * lp, 2 * lp + 1, 3 * lp + 2, rng.randrange(1, 200), rng.randrange(1, 200)]))
+        me_shapes.append((lp, lpts))
+    for lp, lpts in me_shapes:
+        n = poly_modulus(rng)
+        p = coeffs(rng, n, lp)
+        pts = coeffs(rng, n, lpts, rng.choice(["rand", "mix"]))
+        out.append(Case(f"pf_multi_eval {n} {rng.choice([1, max(lp, lpts), 2 * max(lp, lpts)])} {fmt(p)} {fmt(pts)}"))
     return out
 
 
@@ -776,11 +798,35 @@ def oracle(case, ans):
             a = a[3:]
         size, off, reslen = int(a[1]), int(a[2]), int(a[3])
         p, q = parse_poly(n, a[4]), parse_poly(n, a[5])
+        chk = None
+        if " chk=" in ans:
+            ans, chk = ans.split(" chk=")
         got = parse_ans(ans)
         if len(a) > 6:
             idx = [int(x) for x in a[6].split(",")]
             want = [cyc_coef_ref(n, size, p, q, off + i) if off + i < size else 0 for i in idx]
-            return _cmp(got, want, "cyclic convolution (sampled indices %s...)" % idx[:4])
+            msg = _cmp(got, want, "cyclic convolution (sampled indices %s...)" % idx[:4])
+            if msg or len(a) <= 7:
+                return msg
+            # checksum over EVERY coefficient (offset 0, full window)
+            x = int(a[7])
+            if chk is None or off != 0 or reslen != size:
+                return "checksum missing"
+            if len(p) + len(q) - 1 <= size:
+                wantchk = eval_ref(n, p, x) * eval_ref(n, q, x) % n          # no wrap-around: c(x) = p(x) q(x)
+            else:
+                # one operand is sparse: exact cyclic product in O(nnz * size)
+                sp, de = (q, p) if sum(1 for c in q if c) <= sum(1 for c in p if c) else (p, q)
+                de = de + [0] * (size - len(de))
+                full = [0] * size
+                for b_, qb in enumerate(sp):
+                    if qb:
+                        rot = de[size - b_:] + de[:size - b_]            # rot[k] = de[(k - b_) mod size]
+                        full = [f + r * qb for f, r in zip(full, rot)]
+                if any(full[off + i] % n != got[j] for j, i in enumerate(idx)):
+                    return "oracle self-check failed (sparse product)"
+                wantchk = eval_ref(n, [c % n for c in full], x)
+            return None if int(chk) == wantchk else "cyclic convolution: checksum over all coefficients differs"
         full = cyc_ref(n, size, p, q)
         want = [(full[off + i] if off + i < size else 0) for i in range(reslen)]
         # literal schoolbook sums on a few indices, independent of the fast multiplication used above
@@ -793,6 +839,11 @@ def oracle(case, ans):
         p, q = parse_poly(n, a[1]), parse_poly(n, a[2])
         want = mul_ref(n, p, q)
         return _cmp(got, want + [0] * (2 * len(p) - len(want)), "product")
+    if op == "pf_karatsuba_raw":
+        zlen = int(a[1])
+        p, q = parse_poly(n, a[3]), parse_poly(n, a[4])
+        want = mul_ref(n, p, q)
+        return _cmp(got, want + [0] * (zlen - len(want)), "product")
     if op == "pf_mul_fft":
         p, q = parse_poly(n, a[2]), parse_poly(n, a[3])
         return _cmp(got, mul_ref(n, p, q), "product")
@@ -1019,6 +1070,11 @@ def klass(case, ans):
             arm = arm_of(bits, size)
             armtag = "none" if arm is None else f"arm{arm[0]}-A{1 << arm[2]}"
             return f"{op}/{armtag}/size{size_class(size)}/{'off0' if off == 0 else 'off+'}{bad}"
+        if op == "pf_karatsuba_raw":
+            lp, lq = a[3].count(",") + 1, a[4].count(",") + 1
+            half = (max(lp, lq) + 1) // 2
+            br = "basic" if (lp <= 20 and lq <= 20) else ("fallback" if lp <= half or lq <= half else "recursive")
+            return f"{op}/{br}/{'lp<lq' if lp < lq else ('eq' if lp == lq else 'lp>lq')}/len{size_class(max(lp, lq))}{bad}"
         if op in ("pf_mul_karatsuba", "pf_mul_basic"):
             lp, lq = a[1].count(",") + 1, a[2].count(",") + 1
             return f"{op}/{'basic' if lp <= 20 and lq <= 20 else 'recursive'}/{'eq' if lp == lq else 'unbalanced'}/len{size_class(lp)}{bad}"
